@@ -215,5 +215,6 @@ G12_mesh = [
     r('Mesh3D._get_tri_area', [TLst(P3)], name='Mesh3D__get_tri_area'),
     r('Mesh3D._tri_centroid', [TLst(P3)], name='Mesh3D__tri_centroid'),
     r('Mesh3D._quad_centroid', [TLst(P3)], name='Mesh3D__quad_centroid'),
+    r('Mesh2D._quad_to_triangles', [TLst(P2)], name='Mesh2D__quad_to_triangles'),
 ]
 LAYERS.append(('G12_mesh', G12_mesh))
